@@ -25,7 +25,7 @@ check("C02",
       "agreeing chops end in success with the chop's count, families without chop end in UndefinedGradingsError), absence "
       "of spurious errors, and determinism across schedules (pairwise solver query over explored paths with equal flags). "
       "Every run grades through the real Mesh.write() into a scratch file that already holds a dictionary: a failing write "
-      "must leave it untouched (no partial dictionary), a successful one must leave a complete file.",
+      "must leave it untouched (no partial dictionary), a successful one must leave a complete file. Selected models are written twice: the second write must end like the first and derive the same counts.",
       "as C01; determinism is checked between explored schedules of one insertion order, order-independence by running "
       "several insertion orders/corner numberings against the same order-free oracle",
       "symbolic execution of the real Python code with z3 (symx); set-iteration schedules as solver variables; cross-path "
@@ -69,7 +69,7 @@ check("C08",
       "arc_mid/divide_arc, arc_length_3point) and Spline/PolyLine/Project edge lengths via the real edge factory, for "
       "end points placed on a circle by construction: symbolic centre, symbolic radius (x,y in-plane), pinned sector "
       "angles incl. reflex and negative ones, two axes (one non-unit). z3 shows third point == rotation by half the angle, "
-      "length == radius*angle (three-point arcs: the arc through the given point), length >= chord.",
+      "length == radius*angle (three-point arcs: the arc through the given point), length >= chord. A 5.73-degree sector with radius down to 0.05 sits next to the collinearity cut-off.",
       "sector angles from the pinned set (rational half-angle cos/sin); arccos of concrete arguments evaluated numerically; "
       "chord bound of point-list edges uses ground triangle-inequality instances as lemmas; flatness != 1 outside",
       "symbolic execution of the real Python code with z3 (symx) with canonical-form reduction (exact polynomial division, "
@@ -90,7 +90,7 @@ check("C05",
       "merge tolerance, solver-chosen insertion order and merge-call order, and scenario tables of patches and merged "
       "pairs; every tolerance comparison is decided by z3; the resulting vertex indices are compared with a harness-side "
       "partition by (lattice point, slave patches touching the corner). Thin-layer variants put a symbolic layer thickness "
-      "h in [2.5 TOL, 2] between lattice planes: distinct points, however close, are distinct vertices.",
+      "h in [2.5 TOL, 2] between lattice planes: distinct points, however close, are distinct vertices. 'Assembled again' variants judge the vertex list after clear()+assemble() or backport() (solver's choice).",
       "layouts and scenarios as listed in evidence.bounds; jitter <= TOL/8 so that tolerance chains are transitive; the "
       "side a corner touches is derived geometrically",
       "symbolic execution of the real Python code with z3 (symx), insertion order as solver variable, concrete replay",
@@ -102,7 +102,7 @@ check("C07",
       "all 12 edge positions (fork on value) with symbolic curve points and corner jitter; the edges section is read "
       "back by a harness parser and compared with the intent recorded at construction (polyline equality in either "
       "direction, arc point, angle-arc side, Edge.length, one entry per geometric edge, omission of straight/zero-length/"
-      "collinear edges with a symbolic off-chord deviation).",
+      "collinear edges with a symbolic off-chord deviation). Edges snapped to a discrete curve that runs with or against the edge (solver's choice) are included.",
       "Mesh.write's grading is skipped (sections come from the real list writers after the real assemble); angle edges on a "
       "concrete cube with a pinned sector angle; <= 2 interior curve points; curve-snapped edges on analytic curves outside",
       "symbolic execution of the real Python code with z3 (symx), read-back parser, concrete replay",
@@ -114,7 +114,7 @@ check("C06",
       "settings and geometry; the file is read back by an independent parser and every section is related to the "
       "declarations with geometric side oracles (number tokens give symbolic equality of coordinates). Further templates: "
       "corners shared by two operations projected to different geometries in every insertion order; sphere shapes "
-      "(plain, translated by a symbolic vector, copied, two in one mesh) with their automatic searchableSphere geometry.",
+      "(plain, translated by a symbolic vector, copied, two in one mesh) with their automatic searchableSphere geometry. The patches/zones/default/merge/settings template is written directly, after assemble()+clear() or after assemble()+backport() (solver's choice).",
       "number->text formatting is replaced by tokens in symbolic mode (the concrete replay parses the real 8-decimal text); "
       "templates of three boxes / one or two hemispheres",
       "symbolic execution of the real Python code with z3 (symx), read-back parser, concrete replay",
@@ -151,7 +151,7 @@ check("C04",
       "stacked lofts with symbolic, per-job related edge lengths, symbolic chop sizes/ratios, three preserve modes, one "
       "or two sections, aligned or x-reversed neighbour. Each wire's specification is decoded with the harness' own "
       "progression law; z3 shows equal cell sequences on shared edges, the preserved size on all eight x edges at the same "
-      "geometric end, and simpleGrading only for equal gradings.",
+      "geometric end, and simpleGrading only for equal gradings. Ground-twin-only jobs grade, move the vertices and grade again (preserved size on the present edge lengths; the propagated block is a recorded known finding).",
       "counts concrete (2, 3; thorough 4); brentq replaced by its contract; curved edges outside; size preserved from a "
       "ratio-defined chop only in the thorough tier",
       "symbolic execution of the real Python code with z3 (symx), independent decoding oracle, concrete replay",
@@ -162,7 +162,7 @@ check("C15",
       "add_neighbour and MappedSketch.positions with all point positions free symbolic reals and the fixed set chosen by "
       "the solver (given by index, by position, or in several calls with a solver-chosen split and order), on structured, L-shaped and disk quad maps and two hexahedral assemblies. The harness derives boundary "
       "and edge-neighbours from connectivity alone and recomputes the sweep; z3 shows unmoved boundary/fixed points, "
-      "averages, fix-point, unique regular lattice, consistent copy-back.",
+      "averages, fix-point, unique regular lattice, consistent copy-back. The library's own mapped sketches (SplineDisk, HalfSplineDisk, FourCoreDisk, OneCoreDisk, Oval) are judged against the same reference on concrete geometry (ground twins).",
       "maps up to 9 (thorough 12) faces, iterations <= 2 (3); sweep order = junction index order; convergence rate outside",
       "symbolic execution of the real Python code with z3 (symx), linear real arithmetic, concrete replay",
       "DESIGN.md 4/C15")
@@ -172,7 +172,7 @@ check("C19",
       "Cylinder, SemiCylinder, Frustum, ExtrudedRing and the disk sketches under a symbolic scale and translation for the "
       "core/shell partition (squared-distance test against the outer radius). z3 shows grid[k][j][i] sits at column i, "
       "row j, tier k; slices return exactly the cells with that index, once; deletion removes exactly the addressed hex; "
-      "for ExtrudedShape over all 12 sketch classes shape.grid[i][j] stands on sketch.grid[i][j] (bottom and top face).",
+      "for ExtrudedShape over all 12 sketch classes shape.grid[i][j] stands on sketch.grid[i][j] (bottom and top face). Deletion happens before the first assembly or after it, followed by clear(), assemble() and backport() (solver's choice).",
       "grid sizes enumerated up to 3x3x2 (thorough 4x4x3); round shapes axis-aligned (rotated placements are lifted in C11); "
       "np.linspace on symbolic scalars modelled as the affine formula",
       "symbolic execution of the real Python code with z3 (symx), fork-on-value for indices, concrete replay",
